@@ -207,7 +207,7 @@ def run_lines(ctx, exe, lines, timeout):
             died = died + 1
         results[died] = None
         info[died] = ("timeout after %ds" % timeout) if r.timed_out else \
-            (r.sanitizer or r.err[-600:] or "exit code %d" % r.rc)
+            " ".join((r.sanitizer or r.err[-600:] or "exit code %d" % r.rc).replace("=" * 10, "").split())
         start = died + 1
         if r.timed_out:
             # one hang is a verdict; do not wait for every later case to hang as well
